@@ -10,7 +10,10 @@ package safehtmlutil
 
 //@ func urlProcessor(norm bool, s string) (r string)
 //@   serves C13 C14 C08
+//@   option uses C13.empty_in_qimg C13.qimg_closed_unreserved C13.qimg_closed_pct C14.empty_in_nimg C14.nimg_closed_char C14.nimg_closed_pct
 //@   ensures spec: seqeq(r, encupto(norm, s, len(s)))
+//@   ensures qimage: !norm ==> inlang(QImg, r)
+//@   ensures nimage: norm ==> inlang(NImg, r)
 //@   ensures fix: forall(k, 0, len(s), keepat(norm, s, k)) ==> sameview(r, s)
 //@   loop 1
 //@     invariant 0 <= written && written <= i && i <= n && n == len(s)
@@ -18,6 +21,8 @@ package safehtmlutil
 //@     invariant written == 0 ==> seq(b) == empty
 //@     invariant seqeq(cat(seq(b), sub(s, written, i)), encupto(norm, s, i))
 //@     invariant forall(k, written, i, keepat(norm, s, k))
+//@     invariant !norm ==> inlang(QImg, seq(b))
+//@     invariant norm ==> inlang(NImg, seq(b))
 //@     invariant written > 0 ==> !keepat(norm, s, written - 1)
 //@     decreases n - i
 
